@@ -558,6 +558,113 @@ Definition mf_prop (fl : list err) (log : list nat) (ret : err) : Prop :=
   \/ (exists pre post, fl = pre ++ ret :: post /\ Forall (fun e => e = ENil) pre /\ ret <> ENil
         /\ log = seq 0 (S (length pre))).
 
+(* ================= the valve under concurrency ================= *)
+(* ValveWriter.Write and ValveWriter.Shut run by several goroutines, as a
+   transition system at the level of the mutex:
+     Write:  Lock; if writer == nil { Unlock; return }  else
+             (the underlying Write begins ... ends); Unlock; return
+     Shut:   Lock; writer = nil; Unlock; return
+   A schedule is a list of thread indices; a thread that waits for the lock
+   does not move.  The events are what an observer outside the valve can see:
+   an underlying Write beginning / ending, and a Shut returning. *)
+Inductive wpc :=
+| W0    (* before Lock *)
+| W1    (* holds the lock, before the nil test *)
+| W2    (* writer was non-nil: about to call the underlying Write *)
+| W3    (* the underlying Write is in flight *)
+| W4    (* the underlying Write returned; before Unlock *)
+| W5    (* writer was nil; before Unlock *)
+| WDone.
+Inductive spc :=
+| S0    (* before Lock *)
+| S1    (* holds the lock *)
+| S2    (* writer = nil done; before Unlock *)
+| SDone.
+Inductive thread := TW (pc : wpc) | TS (pc : spc).
+
+Inductive event :=
+| EvFwdBegin (t : nat)    (* the underlying Write is entered *)
+| EvFwdEnd (t : nat)      (* the underlying Write is about to return *)
+| EvShutRet (t : nat).    (* Shut has returned *)
+
+Record cstate := { clock : bool;            (* the mutex is held *)
+                   copen : bool;            (* writer != nil *)
+                   cths : list thread;
+                   cevs : list event }.     (* oldest first *)
+
+Definition upd (i : nat) (t : thread) (l : list thread) : list thread :=
+  firstn i l ++ t :: skipn (S i) l.
+
+Definition cstep (s : cstate) (i : nat) : cstate :=
+  let set t := upd i t (cths s) in
+  match nth_error (cths s) i with
+  | None => s
+  | Some (TW W0) =>
+    if clock s then s
+    else {| clock := true; copen := copen s; cths := set (TW W1); cevs := cevs s |}
+  | Some (TW W1) =>
+    {| clock := clock s; copen := copen s;
+       cths := set (TW (if copen s then W2 else W5)); cevs := cevs s |}
+  | Some (TW W2) =>
+    {| clock := clock s; copen := copen s; cths := set (TW W3); cevs := cevs s ++ [EvFwdBegin i] |}
+  | Some (TW W3) =>
+    {| clock := clock s; copen := copen s; cths := set (TW W4); cevs := cevs s ++ [EvFwdEnd i] |}
+  | Some (TW W4) | Some (TW W5) =>
+    {| clock := false; copen := copen s; cths := set (TW WDone); cevs := cevs s |}
+  | Some (TW WDone) => s
+  | Some (TS S0) =>
+    if clock s then s
+    else {| clock := true; copen := copen s; cths := set (TS S1); cevs := cevs s |}
+  | Some (TS S1) =>
+    {| clock := clock s; copen := false; cths := set (TS S2); cevs := cevs s |}
+  | Some (TS S2) =>
+    {| clock := false; copen := copen s; cths := set (TS SDone); cevs := cevs s ++ [EvShutRet i] |}
+  | Some (TS SDone) => s
+  end.
+
+Definition crun (s : cstate) (sched : list nat) : cstate := fold_left cstep sched s.
+
+(* [nw] writers and [ns] shutters, nobody has started; the valve is open *)
+Definition cinit (open : bool) (nw ns : nat) : cstate :=
+  {| clock := false; copen := open;
+     cths := repeat (TW W0) nw ++ repeat (TS S0) ns; cevs := [] |}.
+
+(* the contract on an observed event sequence, scanned oldest first with
+   (a Shut has returned, number of underlying Writes in flight): once a Shut
+   has returned no underlying Write begins or is still running *)
+Definition ok_step (st : option (bool * nat)) (e : event) : option (bool * nat) :=
+  match st with
+  | None => None
+  | Some (sr, k) =>
+    match e with
+    | EvFwdBegin _ => if sr then None else Some (sr, S k)
+    | EvFwdEnd _ => if sr then None else match k with O => None | S k' => Some (sr, k') end
+    | EvShutRet _ => match k with O => Some (true, 0) | S _ => None end
+    end
+  end.
+Definition trace_ok (tr : list event) : bool :=
+  match fold_left ok_step tr (Some (false, 0)) with Some _ => true | None => false end.
+
+(* what the model can produce: in addition, underlying Writes never overlap *)
+Definition serial_step (st : option (bool * nat)) (e : event) : option (bool * nat) :=
+  match st, e with
+  | Some (_, S _), EvFwdBegin _ => None
+  | _, _ => ok_step st e
+  end.
+Definition trace_serial (tr : list event) : bool :=
+  match fold_left serial_step tr (Some (false, 0)) with Some _ => true | None => false end.
+
+Definition is_fwd_begin (e : event) : bool := match e with EvFwdBegin _ => true | _ => false end.
+Definition is_fwd_end (e : event) : bool := match e with EvFwdEnd _ => true | _ => false end.
+Definition is_shut_ret (e : event) : bool := match e with EvShutRet _ => true | _ => false end.
+
+(* the same contract as a Prop: whenever a Shut returns, every underlying
+   Write that began has ended, and afterwards none begins or ends *)
+Definition trace_safe (tr : list event) : Prop :=
+  forall pre t post, tr = pre ++ EvShutRet t :: post ->
+    length (filter is_fwd_begin pre) = length (filter is_fwd_end pre)
+    /\ Forall (fun e => is_shut_ret e = true) post.
+
 (* ================= one case type for the harness ================= *)
 Inductive wcase :=
 | CCutoff (n : nat) (ws : list (list nat)) (s : script) (out : list wres)
@@ -567,6 +674,9 @@ Inductive wcase :=
 | CConc (ws : list (list nat)) (s : script) (out : list wres)
 | CPre (interval : nat) (ops : list pop) (s : script) (out : list wres)
 | CValve (open : bool) (ops : list vop) (s : script) (out : list wres)
+(* goroutines on one valve, some blocked inside the underlying writer while
+   Shut is called: the events in the order observed *)
+| CValveC (nw ns : nat) (tr : list event)
 | CMc (cl : list err) (log : list nat) (ret : err)
 | CMf (fl : list err) (log : list nat) (ret : err)
 | CFc (e : err) (nflush : nat) (ret : err).
@@ -583,6 +693,7 @@ Definition model_agrees (c : wcase) : bool :=
   | CConc ws s out => wress_eqb (conc_run s ws) out
   | CPre i ops s out => wress_eqb (pre_run i 0 false s ops) out
   | CValve open ops s out => wress_eqb (valve_run open s ops) out
+  | CValveC _ _ tr => trace_serial tr
   | CMc cl log ret => let '(l, r) := mc_close cl in list_eqb l log && err_eqb r ret
   | CMf fl log ret => let '(l, r) := mf_flush fl in list_eqb l log && err_eqb r ret
   | CFc e n ret => let '(k, r) := fc_close e in Nat.eqb k n && err_eqb r ret
@@ -598,6 +709,7 @@ Definition check_c47 (c : wcase) : bool :=
   | CConc ws s out => all_passthrough ws out
   | CPre i ops s out => check_pre i None false ops out
   | CValve open ops s out => check_valve open ops out
+  | CValveC _ _ tr => trace_ok tr
   | CMc cl log ret => check_mc cl log ret
   | CMf fl log ret => check_mf fl log ret
   | CFc e n ret => check_fc e n ret
@@ -612,6 +724,7 @@ Definition c47_prop (c : wcase) : Prop :=
   | CConc ws s out => all_passthrough ws out = true
   | CPre i ops s out => pre_prop i ops out
   | CValve open ops s out => valve_prop open ops out
+  | CValveC _ _ tr => trace_safe tr
   | CMc cl log ret => mc_prop cl log ret
   | CMf fl log ret => mf_prop fl log ret
   | CFc e n ret => n = 1 /\ ret = e
